@@ -155,9 +155,14 @@ def make_mutate(kernel, n, d, with_blobs, bounds_kind="hard"):
 # ------------------------------------------------------------------ Mutator.run, beta == 0 (prior draws, -inf replacement)
 
 
-def make_warmup(n, d, with_blobs):
+def make_warmup(n, d, with_blobs, declared=True):
+    """declared=False: the likelihood returns (logl, blob) but blobs_dtype was left at None (have_blobs False): whatever the step stores as
+    blobs must still belong to the stored rows (or nothing is stored)."""
+    cb_blobs = with_blobs
+    with_blobs = with_blobs and declared
+
     def harness(ctx: PathCtx):
-        cb = Callbacks(d, blobs=with_blobs, inf=True)
+        cb = Callbacks(d, blobs=cb_blobs, inf=True)
         st = StateManager(n_dim=d)
         st._current.update({"beta": 0.0, "calls": 5, "logz": 0.0, "iter": 1})
         mut = mutate_mod.Mutator(state=st, prior_transform=cb.prior_transform, log_likelihood=cb.log_likelihood, pbar=None,
@@ -170,12 +175,13 @@ def make_warmup(n, d, with_blobs):
         n_inf = sum(1 for v in c["logl"] if isinstance(v, float))
         ctx.check("no-minus-inf-stored", z3.BoolVal(n_inf == 0), detail={"stored_minus_inf": n_inf})
         if n_inf == 0:
-            check_rows(ctx, cb, "rows-coherent-after-warmup", c["u"], c["x"], c["logl"], c["blobs"] if with_blobs else None, n, d)
+            stored_blobs = c["blobs"] if (with_blobs or (cb_blobs and c.get("blobs") is not None)) else None
+            check_rows(ctx, cb, "rows-coherent-after-warmup", c["u"], c["x"], c["logl"], stored_blobs, n, d)
         ctx.check("calls-count-likelihood-points", z3.BoolVal(c["calls"] == 5 + cb.n_like_points))
         return None
 
     def replay(m, label, v):
-        pt, ll0, ll_point, bl_point = concrete_callbacks(d, with_blobs)
+        pt, ll0, ll_point, bl_point = concrete_callbacks(d, cb_blobs)
 
         def ll(x):
             l, b = ll0(x)
@@ -196,14 +202,14 @@ def make_warmup(n, d, with_blobs):
             if np.any(np.isinf(c["logl"])):
                 return {"reproduced": True, "signature": "Mutator.run:warmup:-inf-stored", "payload": {"seed": trial},
                         "what": f"warm-up with seed {trial} stored a -inf particle"}
-            ok, why = rows_coherent_concrete(c["u"], c["x"], c["logl"], c["blobs"] if with_blobs else None, pt,
+            ok, why = rows_coherent_concrete(c["u"], c["x"], c["logl"], c["blobs"] if (with_blobs or (cb_blobs and c["blobs"] is not None)) else None, pt,
                                              lambda xr: ll_point(xr), bl_point)
             if not ok:
-                return {"reproduced": True, "signature": "Mutator.run:warmup:incoherent-record", "payload": {"seed": trial},
+                return {"reproduced": True, "signature": "Mutator.run:warmup:incoherent-record" + ("" if declared else ":undeclared-blobs"), "payload": {"seed": trial},
                         "what": f"warm-up with seed {trial}: {why}"}
         return {"reproduced": False, "what": "100 seeded warm-up steps stayed coherent"}
 
-    return Obligation(f"warmup-n{n}-d{d}-{'blobs' if with_blobs else 'noblobs'}", harness, replay=replay,
+    return Obligation(f"warmup-n{n}-d{d}-{'blobs' if with_blobs else ('undeclared-blobs' if cb_blobs else 'noblobs')}", harness, replay=replay,
                       encodes=[mutate_mod.Mutator.run],
                       bounds=f"{n} fresh prior draws, d={d}, every subset of them with -inf likelihood (symbolic predicate), all replacement index choices",
                       stubs=["np.random.rand / np.random.choice -> symbolic draws", "np.isinf -> exact on the -inf marker"],
@@ -323,7 +329,7 @@ def obligations(tier):
     if tier == "quick":
         obs += [make_mutate("rwm", 2, 1, True), make_mutate("tpcn", 1, 1, False), make_mutate("tpcn", 1, 1, True, "periodic"),
                 make_mutate("rwm", 1, 1, False, "reflective"),
-                make_warmup(2, 1, True), make_warmup(3, 1, False),
+                make_warmup(2, 1, True), make_warmup(3, 1, False), make_warmup(2, 1, True, declared=False),
                 make_resample("mult", 2, (2, 1), True), make_resample("syst", 2, (2, 1), True),
                 make_commit(2, 1, True)]
         obs += [make_posterior(flags, (2, 1), 3) for flags in [(True, True, True, True), (False, True, False, True), (True, False, True, False), (False, False, True, True)]]
